@@ -70,7 +70,7 @@ def make_context(kind, backend, auth):
 
 
 def client_kwargs(p, auth, der, variant=0):
-    kw = {"timeout": 6.0}
+    kw = {"timeout": 8.0}
     ctx = make_context(p["ctx"], p["backend"], auth)
     if ctx is not None:
         kw["ssl_context"] = ctx
@@ -186,7 +186,7 @@ def run_point(p, variant=0, no_retry=False):
             obs["exc"], obs["exc_msg"] = exc_chain(e), str(e)[:160]
             held = e  # noqa: F841
         # ground truth from the server side, taken BEFORE the harness closes or drops anything
-        obs["joined"] = net.wait(10.0)
+        obs["joined"] = net.wait(14.0)
         obs["conns"] = net.records()
         obs["seen"] = seen
         obs["warned"] = any(issubclass(x.category, InsecureRequestWarning) for x in w)
